@@ -71,3 +71,17 @@ Definition decode (dim nd ed fd id off nv ne nf nt : nat) (d : nat) : kind * nat
   let c := cnt dim nd ed fd id in
   let kd := if d <? o Edge then Nodal else if d <? o Facet then Edge else if d <? o Interior then Facet else Interior in
   (kd, (d - o kd) / c kd, (d - o kd) mod c kd).
+
+(* ---- AbstractBasis.__init__ (abstract_basis.py 61-73), one coordinate:
+     for jtr in range(Nbfun): doflocs[element_dofs[jtr]] = X[:, jtr]      (fancy assignment, the last write wins) *)
+Fixpoint set_nth {A} (k : nat) (v : A) (l : list A) : list A :=
+  match l, k with
+  | [], _ => []
+  | _ :: r, 0 => v :: r
+  | x :: r, S k' => x :: set_nth k' v r
+  end.
+Definition scatter_row {A} (tab : list A) (idx : list nat) (vals : list A) : list A :=
+  fold_left (fun acc iv => set_nth (fst iv) (snd iv) acc) (combine idx vals) tab.
+(* X : one row of mapped reference locations per local basis function (same shape as element_dofs) *)
+Definition scatter_doflocs {A} (zero : A) (N : nat) (edofs : list (list nat)) (X : list (list A)) : list A :=
+  fold_left (fun acc rx => scatter_row acc (fst rx) (snd rx)) (combine edofs X) (repeat zero N).
